@@ -20,4 +20,15 @@ IndInit == /\ nodes = Gen(6)
            /\ ret = Gen(1)
            /\ op \in {"init", "add", "remove", "new"}
            /\ IndInv
+
+\* Non-vacuity witnesses: each is an ACTION invariant that apalache-mc must
+\* report VIOLATED from IndInit at length 1 - i.e. some state satisfying IndInv
+\* (within the Gen bound) has a successor by that action / that branch of
+\* NewID, so the inductive step above does not hold for lack of transitions.
+WitAdd == ~(op' = "add" /\ nodes' # nodes)
+WitRemove == ~(op' = "remove" /\ nodes' # nodes)
+WitNewEmpty == ~(op' = "new" /\ nodes = {})
+WitNewFree == ~(op' = "new" /\ nodes # {} /\ free # {})
+WitNewNext == ~(op' = "new" /\ nodes # {} /\ free = {} /\ maxID # Max)
+WitNewScan == ~(op' = "new" /\ nodes # {} /\ free = {} /\ maxID = Max)
 =============================================================================
